@@ -468,6 +468,7 @@ Definition doc_text (kind : N) (part : str) : str :=
   else if kind =? 2 then [123; 102; 40; 97; 58; 34; 34; 34] ++ part ++ [34; 34; 34; 41; 125]
   else if kind =? 3 then [113; 117; 101; 114; 121; 40; 36; 118; 58] ++ part ++ [41; 123; 97; 125]
   else if kind =? 4 then [123; 102; 40; 97; 58] ++ part ++ [41; 125]
+  else if kind =? 5 then [113; 117; 101; 114; 121; 40; 36; 118; 58; 83; 61; 34; 34; 34] ++ part ++ [34; 34; 34; 41; 123; 97; 125]
   else part.
 
 Definition field_f_a (v : pvalue) : list pdef :=
@@ -476,6 +477,11 @@ Definition field_f_a (v : pvalue) : list pdef :=
 Definition query_v (t : ptype) : list pdef :=
   [DOp {| po_name := None; po_ty := POQuery;
           po_vars := [{| pv_name := [118]; pv_ty := t; pv_dirs := []; pv_default := None |}];
+          po_dirs := []; po_sels := [PField None [97] [] [] []] |}].
+
+Definition query_v_default (t : ptype) (d : pvalue) : list pdef :=
+  [DOp {| po_name := None; po_ty := POQuery;
+          po_vars := [{| pv_name := [118]; pv_ty := t; pv_dirs := []; pv_default := Some d |}];
           po_dirs := []; po_sels := [PField None [97] [] [] []] |}].
 
 Fixpoint has_sub (p s : str) : bool :=
@@ -506,7 +512,7 @@ Definition spec_expect (kind : N) (part : str) : option (outcome (list pdef)) :=
                | Some v => Ok (field_f_a (PVStr v))
                | None => Err E_SYNTAX
                end)
-  else if kind =? 2 then
+  else if (kind =? 2) || (kind =? 5) then
     if has_sub [34; 34; 34] (
          (fix strip (s : str) : str :=
             match s with
@@ -515,7 +521,8 @@ Definition spec_expect (kind : N) (part : str) : option (outcome (list pdef)) :=
             | [] => []
             end) part) || last_is 34 part || last_is 92 part
     then None
-    else Some (Ok (field_f_a (PVStr (spec_block part))))
+    else Some (Ok (if kind =? 2 then field_f_a (PVStr (spec_block part))
+                   else query_v_default (TNamed [83] true) (PVStr (spec_block part))))
   else if kind =? 3 then
     if forallb (fun c => is_name_cont c || (c =? 91) || (c =? 93) || (c =? 33) || is_ignored_char c) part then
       Some (match spec_type part with
@@ -608,7 +615,7 @@ Fixpoint block_bodies (fuel : nat) (s : str) : list str :=
   end.
 
 Definition known_class (kind : N) (part : str) : N :=
-  if kind =? 2 then (if kc_block_escape part then 1 else if kc_block_short_blank part then 2 else 0)
+  if (kind =? 2) || (kind =? 5) then (if kc_block_escape part then 1 else if kc_block_short_blank part then 2 else 0)
   else if kind =? 3 then (if kc_type_inner_ignored part then 3 else 0)
   else if kind =? 4 then
     (if kc_float_range part then 5 else if kc_token_boundary part then 4
@@ -647,18 +654,26 @@ Fixpoint bad_number (fuel : nat) (t : tree) : bool :=
     || existsb (bad_number f) (t_kids t)
   end.
 
-Definition check_sdl (c : str * outcome (list (N * str))) : N :=
+Definition check_sdl (c : str * outcome (list (N * str * option str))) : N :=
   let '(s, impl) := c in
   let model := parse_schema_peg DOCFUEL s in
   let bad := match parse_rule grammar DOCFUEL R_service_document s with
              | PMatch _ _ ts => existsb (bad_number 200) ts
              | _ => false
              end in
+  let item_eqb (p : N * str * option str) (q : N * str * option str) : bool :=
+      (fst (fst p) =? sdl_kind_code (fst (fst q))) && str_eqb (snd (fst p)) (snd (fst q)) &&
+      opt_eqb str_eqb (snd p) (snd q) in
   let same :=
       match impl, model with
-      | Ok a, Ok b => negb bad && list_eqb (fun p q => (fst p =? sdl_kind_code (fst q)) && str_eqb (snd p) (snd q)) a b
+      | Ok a, Ok b => negb bad && list_eqb item_eqb a b
       | Err k, Err 1 => k =? 1
       | Err k, Ok _ => if k =? 1 then bad else true   (* MultipleRoots / MissingQueryRoot: builders not modelled *)
       | _, _ => false
       end in
-  verdict same true true 0.
+  (* descriptions are block/ordinary strings: the model's value is the code's
+     block_string_value / string_value; a difference is a wrong tree *)
+  match impl, model with
+  | Ok _, Ok _ => verdict same true same 0
+  | _, _ => verdict same true true 0
+  end.
